@@ -63,7 +63,7 @@ Section Gen.
       induction ms as [|m ms IH]; intros rs acc H; cbn [group_loop]; [exact H|].
       pose proof (recd_Q rs m H) as H1.
       destruct (recd rs h m) as [rs1 [a|e|]]; cbn [fst] in *; try exact H1.
-      destruct a; try exact H1. apply IH. exact H1.
+      destruct a; try exact H1; apply IH; exact H1.
     Qed.
     Lemma g_dep_value rs d : Q rs -> Q (fst (dep_value recd rs h d)).
     Proof.
